@@ -91,6 +91,10 @@ var (
 		{Scheme: "https", Host: "a.example.com", Port: 8443},
 		{Scheme: "http", Host: "localhost", Port: 3000},
 		{Scheme: "http", Host: "::1", IP6: true, Port: 9090},
+		{Scheme: "https", Host: "example.com", Port: 65535}, // the largest and the smallest port
+		{Scheme: "https", Host: "a.example.com", Port: 1},
+		{Scheme: "https", Host: "b.a.example.com", Port: 65535},
+		{Scheme: "http", Host: "localhost", Port: 65535},
 		// near-misses and unrelated
 		{Scheme: "https", Host: "aexample.com"},
 		{Scheme: "http", Host: "example.com"},
